@@ -20,6 +20,6 @@ CONSTANTS
   Deterministic = FALSE
   Manual = FALSE
 VIEW View
-INVARIANTS TypeOK ReadStreamIsRetainedSuffix ReadStateIsRefPage PaginationEnumerates PageAfterCursor OrderedFlagFollowsOptions OverdueKeysGone SweeperArmed
-PROPERTIES FoldPublish FoldRemove OnlyWritesChangeState CheckOrder RemoveReason SuppressedChangesNothing AppliedAppendsAndBroadcastsOnce BroadcastOnlyByChange EpochStable EpochFresh SingleKeyExact ExpiryRemovesOnce RefreshedSurvive ExpiryNoopChangesNothing NeverLostNeverTwice VersionExact UnversionedKeepsVersion VersionedStoresVersion IdemReturnsOriginal IdemSavedOnApply IdemExact IdemSweepKeepsValid
+INVARIANTS TypeOK ReadStreamIsRetainedSuffix ReadStateIsRefPage PaginationEnumerates PageAfterCursor OrderedFlagFollowsOptions OverdueKeysGone SweeperArmed SubscriberConverges
+PROPERTIES FoldPublish FoldRemove OnlyWritesChangeState CheckOrder RemoveReason SuppressedChangesNothing AppliedAppendsAndBroadcastsOnce BroadcastOnlyByChange EpochStable EpochFresh SingleKeyExact ExpiryRemovesOnce ExpiryDeliversQueued RefreshedSurvive ExpiryNoopChangesNothing NeverLostNeverTwice VersionExact UnversionedKeepsVersion VersionedStoresVersion IdemReturnsOriginal IdemSavedOnApply IdemExact IdemSweepKeepsValid HandlerInOffsetOrder WritersWaitForSweeper
 CHECK_DEADLOCK FALSE
